@@ -222,6 +222,14 @@ def fam_closing(rng, i):
         "c.cid_lifetime_ms": rng.choice([0, 60000, 61000]), "s.cid_lifetime_ms": rng.choice([0, 60000]),
         "faults_until_ms": 5000, "deadline_ms": 120000,
     }
+    if i % 3 != 0:
+        # the server never hears the close (client->server blackhole from the close on) and keeps sending a large
+        # transfer: dense, then PTO-spaced arrivals at the closing client, whose own PTO / ack / connection-id timers
+        # still fire
+        p["size"] = rng.choice([1000000, 3000000])
+        p["close_at_ms"] = rng.choice([150, 250, 400])
+        p["delay_ms"] = rng.choice([10, 30])
+        p["bh"] = f"{p['close_at_ms'] - rng.choice([0, 5])}:{p['close_at_ms'] + 60000}:1"
     return _nz(p)
 
 
